@@ -123,6 +123,10 @@ func genScenario(t *rapid.T) scenario {
 	if rapid.IntRange(0, 5).Draw(t, "connection-names-managed-headers") == 0 {
 		// a client may name further hop-by-hop headers in Connection; naming the headers fabio
 		// manages must not be a way to keep them from the upstream
+		if rapid.Bool().Draw(t, "connection-on-several-lines") {
+			// the header may come on several lines; the first one is an ordinary option
+			add("Connection", rapid.SampledFrom([]string{"keep-alive", "close", "Keep-Alive", "upgrade"}).Draw(t, "connfirst"))
+		}
 		add("Connection", rapid.SampledFrom([]string{"X-Real-Ip", "Forwarded, X-Forwarded-Proto", "X-Forwarded-Host, X-Forwarded-Port", "keep-alive, X-Real-Ip, Forwarded", "X-Forwarded-For"}).Draw(t, "connhdr"))
 	}
 	add("X-Unrelated", "keep")
